@@ -41,7 +41,9 @@ func (c *SilentCase) src(with bool) string {
 	return b.String()
 }
 
-func (c *SilentCase) Reqs() []Req { return []Req{{Src: []byte(c.src(true))}, {Src: []byte(c.src(false))}} }
+func (c *SilentCase) Reqs() []Req {
+	return []Req{{Src: []byte(c.src(true))}, {Src: []byte(c.src(false))}}
+}
 
 func (c *SilentCase) Judge(rs []Res, env *Env) Outcome {
 	o := Outcome{Cell: c.Cell_}
@@ -127,6 +129,9 @@ func (c *SilentCase) Judge(rs []Res, env *Env) Outcome {
 		if got == "SAL" {
 			got = "SHL"
 		}
+		if (want == "JMP" || want == "CALL") && got == want+"F" && strings.Contains(c.Shape, "far") {
+			got = want // a seg:off operand makes it the far form
+		}
 		if modelledOps[want] && got != want && got != "WAIT" {
 			return fail("wrong-instruction", fmt.Sprintf("decodes to %s", in))
 		}
@@ -164,8 +169,8 @@ var modelledOps = func() map[string]bool {
 var prefixMnemonics = map[string]byte{"LOCK": 0xf0, "REP": 0xf3, "REPE": 0xf3, "REPZ": 0xf3, "REPNE": 0xf2, "REPNZ": 0xf2}
 
 type opndKind struct {
-	Name string
-	Text string
+	Name  string
+	Text  string
 	Undef bool
 }
 
